@@ -136,10 +136,15 @@ pub fn c20(run: &mut Run) -> Stats {
     let thorough = run.thorough();
     let pats: Vec<(&str, &str)> = vec![
         ("a", ""), ("1", ""), ("é", ""), ("😀", "u"), ("\\d", ""), ("\\d+", ""), ("\\d*", ""), ("a*", ""), ("(?:)", ""), ("\\b", ""), ("$", ""), ("^", ""), ("^", "m"), ("(?<=a)", ""), ("(?<=1)a", ""), ("(?<!a)1", ""), ("a|", ""), ("|a", ""), ("a|1", ""), ("[aé]", ""),
-        ("[^a]", ""), (".", ""), (".", "u"), ("..", "u"), ("é*", ""), ("(a)\\1", ""), ("a?1", ""), ("1(?=a)", ""), ("\\B", ""), ("x", ""), ("a+?", ""), ("(?:a|é)*", ""), ("\\W", "u"), ("x*", ""), ("\\ba", ""), ("(?<!a)a", ""), ("^a", ""), ("a$", ""), ("\\Ba", ""),
+        ("[^a]", ""), (".", ""), (".", "u"), ("..", "u"), ("é*", ""), ("(a)\\1", ""), ("a?1", ""), ("1(?=a)", ""), ("\\B", ""), ("x", ""), ("a+?", ""), ("(?:a|é)*", ""), ("\\W", "u"), ("x*", ""), ("\\ba", ""), ("(?<!a)a", ""), ("^a", ""), ("a$", ""), ("\\Ba", ""), (".*\\S", ""), (".*.", "u"), ("[^1]+(?=.)", ""), (".*?[^a]", "u"), ("(.)\\1", "i"), ("(.)\\1", "iu"),
     ];
     let alphabet: Vec<u32> = vec!['a' as u32, '1' as u32, 'é' as u32, 0x1F600];
     let hays: Vec<Hay> = enumerate::all_hays(&alphabet, if thorough { 4 } else { 3 });
+    // fold partners of different encoded lengths (the end of a case-insensitive backreference must land on a
+    // char boundary): appended to the haystack list, explored by every regex
+    let mut hays = hays;
+    hays.extend(enumerate::all_hays(&[0x2C65, 0x23A, 'k' as u32, 0x212A, 0x20AC], 3).into_iter().filter(|h| h.cps.len() >= 2));
+    let hays = hays;
     let hists = histories();
     let known = run.known.clone();
     let compiled: Vec<(regress::Regex, &str, &str)> = pats.iter().map(|(p, f)| (regress::Regex::with_flags(p, *f).unwrap(), *p, *f)).collect();
@@ -297,7 +302,7 @@ pub fn c20(run: &mut Run) -> Stats {
         })
         .reduce(Stats::default, Stats::merge);
     run.rule = format!(
-        "{} regexes (literal, class, empty-matching, assertions, lookbehind, multibyte) x every haystack over {{a, 1, é, U+1F600}} up to length {} x {} call histories of next()/next_back() (forward only, backward only, every interleaving with at most two direction switches and block lengths 1..3), each direction run to Done plus two further calls; after every history: forward steps adjacent from 0, backward steps adjacent from len, char boundaries, coverage at Done, forward Match steps = find_iter, backward Match steps = find_iter reversed, each direction unaffected by the other; then str::find / contains / matches / match_indices / split / rfind / rmatch_indices / rsplit / starts_with / ends_with against a find_iter model; non-trivial = the regex matches",
+        "{} regexes (literal, class, empty-matching, assertions, lookbehind, multibyte) x every haystack over {{a, 1, é, U+1F600}} up to length {} and every haystack of length 2-3 over {{U+2C65, U+023A, k, U+212A, U+20AC}} x {} call histories of next()/next_back() (forward only, backward only, every interleaving with at most two direction switches and block lengths 1..3), each direction run to Done plus two further calls; after every history: forward steps adjacent from 0, backward steps adjacent from len, char boundaries, coverage at Done, forward Match steps = find_iter, backward Match steps = find_iter reversed, each direction unaffected by the other; then str::find / contains / matches / match_indices / split / rfind / rmatch_indices / rsplit / starts_with / ends_with against a find_iter model; non-trivial = the regex matches",
         pats.len(),
         if thorough { 4 } else { 3 },
         hists.len()
